@@ -496,6 +496,12 @@ pub fn quick_level_cap(prop: &str) -> u64 {
     (base * scale) as u64
 }
 
+/// (check, scenario) pairs exempt from the quick work cap
+pub const QUICK_FULL_BOUND: &[(&str, &str)] = &[
+    // seed C04a: RST_STREAM of a parked request while another stream's 30 KB header block is half written (2 deviations)
+    ("C04", "reset-behind-big-headers"),
+];
+
 /// relative cost of one execution of a scenario, from its specification alone: the octets it moves (large bodies and
 /// header blocks make an execution many times dearer than the number of its choice points suggests)
 pub fn scenario_weight(sc: &Scenario) -> f64 {
@@ -546,7 +552,9 @@ pub fn run_t1_property(
             let left = (ctx.hard_cap_s() - ctx.elapsed()).max(1.0);
             let deadline = std::time::Instant::now() + std::time::Duration::from_secs_f64(left);
             let h = T1Harness { prop, sc, sc_index: i, pol: pol.clone(), judge };
-            reports[i] = Some(explore(&h, &ExploreCfg::work_bounded(max_dev, deadline, false, (cap as f64 / scenario_weight(sc)) as u64)));
+            // a few expensive scenarios are explored to the full bound all the same: a seeded change is known to need it
+            let cap_i = if QUICK_FULL_BOUND.contains(&(prop, sc.name.as_str())) { u64::MAX } else { (cap as f64 / scenario_weight(sc)) as u64 };
+            reports[i] = Some(explore(&h, &ExploreCfg::work_bounded(max_dev, deadline, false, cap_i)));
         }
     }
     let total_budget = ctx.remaining().max(1.0);
